@@ -95,10 +95,26 @@ def reference(ty, txt):
     return ("Ok", tuple(nums))
 
 
-def table():
+def texts(thorough):
+    if not thorough:
+        return TEXTS
+    import itertools
+    vals = [b"0", b"7", b"-7", b"+7", b"65536", b"-32769"]
+    out = list(TEXTS)
+    for n in (1, 2, 3, 4):
+        for combo in itertools.product(vals, repeat=n):
+            if n == 4 and any(c not in (b"7", b"-7") for c in combo):
+                continue
+            out.append(b"!".join(combo))
+    seen = set()
+    return [t for t in out if not (t in seen or seen.add(t))]
+
+
+def table(thorough=False):
     """{(type, text): (("Ok", numbers) | ("Err", {codes}) | ("undecided", why), reference)}"""
-    if "table" in _C:
-        return _C["table"]
+    key_ = "table-thorough" if thorough else "table"
+    if key_ in _C:
+        return _C[key_]
     eng, u = engine()
     adt = [a for a in u.adts if a.endswith("channel_list::ChannelSpec")]
     if len(adt) != 1:
@@ -108,7 +124,7 @@ def table():
         raise facts.AnchorLost("ChannelSpec(text, dimension)")
     out = {}
     for b in conversions(u):
-        for txt in TEXTS:
+        for txt in texts(thorough):
             spec = AggV(adt[0], {0: M._mkslice(txt), 1: K(txt.count(b"!") + 1)})
             ref = reference(b.impl_self, txt)
             try:
@@ -127,5 +143,5 @@ def table():
             else:
                 got = ("Err", frozenset(M.err_codes(r.retval)))
             out[(b.impl_self, txt)] = (got, ref, b)
-    _C["table"] = out
+    _C[key_] = out
     return out
